@@ -3,7 +3,7 @@ from harness import common, layerb as B, schemes as S
 
 from univers.version_constraint import VersionConstraint
 
-MODULES = ["Univers.Props.C09"]
+MODULES = ["Univers.Props.C09", "Univers.Props.Schemes"]
 LEVEL = "proof"
 RULE = ("bounded-exhaustive: every comparator sequence up to length L on version-sorted distinct versions; the real "
         "range.invert() is compared constraint by constraint with the Lean model, its membership with the complement "
